@@ -101,6 +101,8 @@ def orient(body, lid, st):
                 if state != need:
                     problems.append(("order", f"`{m}` takes the {'last' if state == '+' else 'first'} element in file order first (sequence is {'front=first' if state == '+' else 'front=last'}): the k-th consumer receives the (n-1-k)-th element", where))
             elif m in ("iter", "into_iter", "iter_mut", "drain") or m in KEEP:
+                if m in ("iter", "into_iter", "drain"):
+                    ends += 1        # consumed in order: as order-relevant as a pop
                 if "rev" in chain[1:]:
                     ends += 1
                     if state == "+":
@@ -131,4 +133,4 @@ def run(c, prog, R="C01.queue"):
                 for kind, msg, where in problems:
                     c.violation(R, f"{side}|{t}|{name}|{kind}", f"{'decode_prop_chunk' if side == 'dec' else 'serialize_properties'} arm {t}: side array `{name}`: {msg}. Two or more values of this kind in one class column come back permuted", where, instance=inst)
     c.floor(R, n_locals, 40, "sequence locals in encoder/decoder arms")
-    c.floor(R, n_end, 2, "sequence locals with end-specific operations (Content uris / objects)")
+    c.floor(R, n_end, 2, "sequence locals consumed in an order-relevant way (pops, iteration): Content uris / objects among them")
